@@ -1,1 +1,430 @@
-(* placeholder: to be written *)
+(** Executable model of dex/router composed with the pair model (Model/Pair.v).
+
+    Mirrors, function by function and guard by guard:
+      dex/router/src/contract.rs         (init, pause, resume, createPair, upgradePair, issueLpToken,
+                                          setLocalRoles, removePair, setFeeOn, setFeeOff, setPairCreationEnabled)
+      dex/router/src/config.rs           (is_active, check_is_pair_sc)
+      dex/router/src/factory.rs          (create_pair, getPair, getAllPairsManagedAddresses, get_pair_temporary_owner)
+      dex/router/src/multi_pair_swap.rs  (multiPairSwap, actual_swap_fixed_input / _output)
+      dex/pair/src/lib.rs                (init as run by deploy_from_source, setLpTokenIdentifier)
+    Every pair contract of the world is a [Model.Pair.pair]; a hop of multiPairSwap is
+    [Pair.ep_swap_in] / [Pair.ep_swap_out] on that pair's state, the router being the intermediate
+    holder of the tokens.  No proofs in this file. *)
+From MX Require Import Base.Prelude Gen.Params Model.Pair.
+
+(** Account ids: 0 = the router contract; [Pair.OWNER] (100) = router owner (deployer); 1.. = users;
+    pair contracts have their own address ids (>= 10 in the harness).
+    Token codes: > 0 = a valid ESDT identifier, <= 0 = a malformed identifier. *)
+Definition ROUTER : Z := 0.
+
+(** ------------------------------------------------------------------ ledger of pool tokens
+    (router, users, owner).  The pair contracts' own balances live in their [pair] records. *)
+Definition ledger := list (Z * Z * Z).      (* (account, token, balance) *)
+
+Fixpoint lget (l : ledger) (a t : Z) : Z :=
+  match l with
+  | [] => 0
+  | (a', t', v) :: tl => if (a' =? a) && (t' =? t) then v else lget tl a t
+  end.
+
+Fixpoint lset (l : ledger) (a t v : Z) : ledger :=
+  match l with
+  | [] => [(a, t, v)]
+  | (a', t', v') :: tl => if (a' =? a) && (t' =? t) then (a, t, v) :: tl else (a', t', v') :: lset tl a t v
+  end.
+
+Definition credit (l : ledger) (a t v : Z) : ledger := lset l a t (lget l a t + v).
+(** outgoing ESDT transfer: the VM aborts when the balance is insufficient *)
+Definition debit (l : ledger) (a t v : Z) : result ledger :=
+  do b <- sub_chk (lget l a t) v; Ok (lset l a t b).
+
+Fixpoint debit_all (l : ledger) (a : Z) (ps : list (Z * Z)) : result ledger :=
+  match ps with
+  | [] => Ok l
+  | (t, v) :: tl => do l1 <- debit l a t v; debit_all l1 a tl
+  end.
+Fixpoint credit_all (l : ledger) (a : Z) (ps : list (Z * Z)) : ledger :=
+  match ps with
+  | [] => l
+  | (t, v) :: tl => credit_all (credit l a t v) a tl
+  end.
+(** direct_multi: one transfer per payment, in order *)
+Fixpoint pay_all (l : ledger) (from to : Z) (ps : list (Z * Z)) : result ledger :=
+  match ps with
+  | [] => Ok l
+  | (t, v) :: tl => do l1 <- debit l from t v; pay_all (credit l1 to t v) from to tl
+  end.
+
+(** ------------------------------------------------------------------ pair contracts of the world *)
+Record pent := mkPent {
+  pe_t1 : Z; pe_t2 : Z;        (* first_token_id, second_token_id as stored by the pair (what it "reports") *)
+  pe_lp : bool;                (* lpTokenIdentifier set *)
+  pe_p : pair
+}.
+Definition set_pp (pe : pent) (p : pair) : pent := mkPent (pe_t1 pe) (pe_t2 pe) (pe_lp pe) p.
+Definition set_plp (pe : pent) (b : bool) : pent := mkPent (pe_t1 pe) (pe_t2 pe) b (pe_p pe).
+
+(** global token -> the pair's local code (Pair.T1 / Pair.T2 / foreign >= 3) and back *)
+Definition loc (pe : pent) (t : Z) : Z :=
+  if t =? pe_t1 pe then T1 else if t =? pe_t2 pe then T2 else 3 + Z.abs t.
+Definition glob (pe : pent) (lt : Z) : Z :=
+  if lt =? T1 then pe_t1 pe else if lt =? T2 then pe_t2 pe else lt - 3.
+
+Fixpoint pair_at (l : list (Z * pent)) (a : Z) : option pent :=
+  match l with
+  | [] => None
+  | (k, v) :: t => if k =? a then Some v else pair_at t a
+  end.
+Definition upd_pair (l : list (Z * pent)) (a : Z) (v : pent) : list (Z * pent) :=
+  map (fun kv => if fst kv =? a then (fst kv, v) else kv) l.
+
+(** ------------------------------------------------------------------ router storage *)
+Record router := mkRouter {
+  r_active : bool;                    (* state *)
+  r_creation : bool;                  (* pair_creation_enabled *)
+  r_owner : Z;                        (* owner *)
+  r_map : list (Z * Z * Z);           (* pair_map in iteration (= insertion) order: (first, second, address) *)
+  r_temp : list (Z * Z * Z)           (* pair_temporary_owner: (pair address, creator, creation block) *)
+}.
+
+Record world := mkW {
+  w_r : router;
+  w_pairs : list (Z * pent);          (* every pair contract that exists, registered or not, by address *)
+  w_led : ledger;
+  w_block : Z                         (* current block nonce *)
+}.
+
+Definition set_r (w : world) (r : router) : world := mkW r (w_pairs w) (w_led w) (w_block w).
+Definition set_pairs (w : world) (ps : list (Z * pent)) : world := mkW (w_r w) ps (w_led w) (w_block w).
+Definition set_led (w : world) (l : ledger) : world := mkW (w_r w) (w_pairs w) l (w_block w).
+Definition set_block (w : world) (n : Z) : world := mkW (w_r w) (w_pairs w) (w_led w) n.
+
+Definition set_active (r : router) (b : bool) : router := mkRouter b (r_creation r) (r_owner r) (r_map r) (r_temp r).
+Definition set_creation (r : router) (b : bool) : router := mkRouter (r_active r) b (r_owner r) (r_map r) (r_temp r).
+Definition set_map (r : router) (m : list (Z * Z * Z)) : router := mkRouter (r_active r) (r_creation r) (r_owner r) m (r_temp r).
+Definition set_temp (r : router) (t : list (Z * Z * Z)) : router := mkRouter (r_active r) (r_creation r) (r_owner r) (r_map r) t.
+
+Definition init_router : router := mkRouter true false OWNER [] [].
+Definition init_world (led : ledger) (blk : Z) : world := mkW init_router [] led blk.
+
+(** ------------------------------------------------------------------ factory.rs: pair_map access *)
+Definition key_is (e : Z * Z * Z) (a b : Z) : bool := (fst (fst e) =? a) && (snd (fst e) =? b).
+
+(** pair_map().get(&PairTokens{a, b}) *)
+Fixpoint map_get (m : list (Z * Z * Z)) (a b : Z) : option Z :=
+  match m with
+  | [] => None
+  | e :: t => if key_is e a b then Some (snd e) else map_get t a b
+  end.
+
+(** getPair: try (a, b), then (b, a); the view returns the zero address for [None] *)
+Definition get_pair (m : list (Z * Z * Z)) (a b : Z) : option Z :=
+  match map_get m a b with Some p => Some p | None => map_get m b a end.
+
+Definition map_remove (m : list (Z * Z * Z)) (a b : Z) : list (Z * Z * Z) :=
+  filter (fun e => negb (key_is e a b)) m.
+
+(** getAllPairsManagedAddresses *)
+Definition all_pairs (m : list (Z * Z * Z)) : list Z := map snd m.
+
+Definition tok_valid (t : Z) : bool := 0 <? t.
+
+(** config.rs: check_is_pair_sc — the address must be the pair_map entry for the tokens that the
+    contract at that address itself reports.  An address without pair storage reports empty tokens,
+    for which no entry exists. *)
+Definition registered (w : world) (addr : Z) : result pent :=
+  match pair_at (w_pairs w) addr with
+  | None => Err EGuard
+  | Some pe =>
+      match get_pair (r_map (w_r w)) (pe_t1 pe) (pe_t2 pe) with
+      | Some a' => if a' =? addr then Ok pe else Err EGuard
+      | None => Err EGuard
+      end
+  end.
+
+Definition is_owner (w : world) (c : Z) : bool := c =? r_owner (w_r w).
+
+(** ------------------------------------------------------------------ contract.rs endpoints *)
+Definition outs := list Z.
+
+(** pair init as executed by deploy_from_source (dex/pair/src/lib.rs init + set_fee_percents);
+    fee arguments are u64 *)
+Definition pair_init_ok (a b f sf : Z) : bool :=
+  tok_valid a && tok_valid b && negb (a =? b) && (0 <=? sf) && (sf <=? f) && (f <=? PAIR_MAX_FEE_PERCENTAGE).
+
+Definition fresh_addr (w : world) (na : Z) : bool :=
+  negb (na =? ROUTER) && (match pair_at (w_pairs w) na with None => true | Some _ => false end).
+
+Definition ep_create_pair (w : world) (c a b adder : Z) (fees : option (Z * Z)) (na : Z)
+  : result (world * outs) :=
+  let r := w_r w in
+  check r_active r else EState;
+  check is_owner w c || r_creation r else EPerm;
+  check negb (a =? b) else EGuard;
+  check tok_valid a else EGuard;
+  check tok_valid b else EGuard;
+  check (match get_pair (r_map r) a b with None => true | Some _ => false end) else EGuard;
+  do (f, sf) <-
+     (if is_owner w c then
+        match fees with
+        | Some (f, sf) =>
+            check (sf <=? f) && (f <? ROUTER_MAX_TOTAL_FEE_PERCENT) else EGuard;
+            Ok (f, sf)
+        | None => Err EGuard                                (* "Bad percents length" *)
+        end
+      else Ok (ROUTER_DEFAULT_TOTAL_FEE_PERCENT, ROUTER_DEFAULT_SPECIAL_FEE_PERCENT));
+  (* factory::create_pair: deploy from the template at the fresh address, run the pair's init *)
+  check fresh_addr w na else EGuard;
+  check pair_init_ok a b f sf else EExt;
+  let pe := mkPent a b false (init_pair f sf (if adder =? 0 then None else Some adder)) in
+  let r' := set_temp (set_map r (r_map r ++ [(a, b, na)])) (r_temp r ++ [(na, c, w_block w)]) in
+  Ok (set_pairs (set_r w r') (w_pairs w ++ [(na, pe)]), [na]).
+
+Definition ep_remove_pair (w : world) (c a b : Z) : result (world * outs) :=
+  let r := w_r w in
+  check is_owner w c else EPerm;
+  check r_active r else EState;
+  check negb (a =? b) else EGuard;
+  check tok_valid a else EGuard;
+  check tok_valid b else EGuard;
+  match get_pair (r_map r) a b with
+  | None => Err EGuard
+  | Some _ =>
+      match map_get (r_map r) a b with
+      | Some p => Ok (set_r w (set_map r (map_remove (r_map r) a b)), [p])
+      | None =>
+          match map_get (r_map r) b a with
+          | Some p => Ok (set_r w (set_map r (map_remove (r_map r) b a)), [p])
+          | None => Ok (w, [0])
+          end
+      end
+  end.
+
+(** the upgrade itself is an asynchronous call that replaces code, not storage *)
+Definition ep_upgrade_pair (w : world) (c a b : Z) : result (world * outs) :=
+  let r := w_r w in
+  check is_owner w c else EPerm;
+  check r_active r else EState;
+  check negb (a =? b) else EGuard;
+  check tok_valid a else EGuard;
+  check tok_valid b else EGuard;
+  match get_pair (r_map r) a b with
+  | None => Err EGuard
+  | Some _ => Ok (w, [])
+  end.
+
+(** a call from the router into a registered pair: the router holds OWNER|PAUSE permissions on every
+    pair it deployed (pair init, router_address = deployer), which the pair model expresses as the
+    permission holder [Pair.OWNER]. *)
+Definition pair_admin (w : world) (addr : Z) (pe : pent) (op : pop) : result (world * outs) :=
+  do (p', _, _) <- step (pe_p pe) op;
+  Ok (set_pairs w (upd_pair (w_pairs w) addr (set_pp pe p')), []).
+
+Definition ep_pause (w : world) (c addr : Z) (st : Z) : result (world * outs) :=
+  check is_owner w c else EPerm;
+  if addr =? ROUTER then Ok (set_r w (set_active (w_r w) (st =? ST_Active)), [])
+  else
+    do pe <- registered w addr;
+    pair_admin w addr pe (SetState OWNER st).
+
+Definition ep_set_fee (w : world) (c addr : Z) (en : bool) (dest tok : Z) : result (world * outs) :=
+  check is_owner w c else EPerm;
+  check r_active (w_r w) else EState;
+  do pe <- registered w addr;
+  pair_admin w addr pe (SetFeeOn OWNER en dest (loc pe tok)).
+
+Definition ep_set_local_roles (w : world) (c addr : Z) : result (world * outs) :=
+  check r_active (w_r w) else EState;
+  do pe <- registered w addr;
+  check pe_lp pe else EGuard;
+  Ok (w, []).
+
+(** factory.rs: get_pair_temporary_owner *)
+Fixpoint temp_get (t : list (Z * Z * Z)) (addr : Z) : option (Z * Z) :=
+  match t with
+  | [] => None
+  | e :: tl => if fst (fst e) =? addr then Some (snd (fst e), snd e) else temp_get tl addr
+  end.
+Definition temp_owner (w : world) (addr : Z) : option Z :=
+  match temp_get (r_temp (w_r w)) addr with
+  | Some (creator, blk) =>
+      if blk + ROUTER_TEMPORARY_OWNER_PERIOD_BLOCKS <=? w_block w then None else Some creator
+  | None => None
+  end.
+
+(** issueLpToken up to the asynchronous call to the ESDT system contract *)
+Definition ep_issue_lp (w : world) (c addr : Z) : result (world * outs) :=
+  let r := w_r w in
+  check r_active r else EState;
+  check is_owner w c || r_creation r else EPerm;
+  do pe <- registered w addr;
+  check (match temp_owner w addr with None => true | Some t => c =? t end) else EPerm;
+  check negb (pe_lp pe) else EGuard;
+  Ok (w, []).
+
+Definition ep_set_creation (w : world) (c : Z) (en : bool) : result (world * outs) :=
+  check is_owner w c else EPerm;
+  Ok (set_r w (set_creation (w_r w) en), []).
+
+(** ------------------------------------------------------------------ multi_pair_swap.rs *)
+(** one swap operation: (pair address, function, token wanted, amount wanted);
+    function 0 = swapTokensFixedInput, 1 = swapTokensFixedOutput, anything else = another name *)
+Definition hop := (Z * Z * Z * Z)%type.
+Definition FIXED_IN : Z := 0.
+Definition FIXED_OUT : Z := 1.
+
+(** one iteration of the loop: [last] is last_payment (token, amount), [resid] the payments vector *)
+Definition do_hop (w : world) (h : hop) (last : Z * Z) (resid : list (Z * Z))
+  : result (world * (Z * Z) * list (Z * Z)) :=
+  let '(addr, f, tw, aw) := h in
+  let (tin, ain) := last in
+  do pe <- registered w addr;
+  if f =? FIXED_IN then
+    do led1 <- debit (w_led w) ROUTER tin ain;
+    do (p', o, e) <- ep_swap_in (pe_p pe) ROUTER (loc pe tin) ain (loc pe tw) aw;
+    match o, e_ext e with
+    | [out], [] =>
+        let led2 := credit led1 ROUTER tw out in
+        Ok (set_led (set_pairs w (upd_pair (w_pairs w) addr (set_pp pe p'))) led2, (tw, out), resid)
+    | _, _ => Err EExt
+    end
+  else if f =? FIXED_OUT then
+    do led1 <- debit (w_led w) ROUTER tin ain;
+    do (p', o, e) <- ep_swap_out (pe_p pe) ROUTER (loc pe tin) ain (loc pe tw) aw;
+    match o, e_ext e with
+    | [out; res], [] =>
+        let led2 := credit (credit led1 ROUTER tw out) ROUTER tin res in
+        Ok (set_led (set_pairs w (upd_pair (w_pairs w) addr (set_pp pe p'))) led2, (tw, out),
+            if 0 <? res then resid ++ [(tin, res)] else resid)
+    | _, _ => Err EExt
+    end
+  else Err EGuard.
+
+Fixpoint run_hops (w : world) (hops : list hop) (last : Z * Z) (resid : list (Z * Z))
+  : result (world * (Z * Z) * list (Z * Z)) :=
+  match hops with
+  | [] => Ok (w, last, resid)
+  | h :: t => do (w1, last1, resid1) <- do_hop w h last resid; run_hops w1 t last1 resid1
+  end.
+
+Fixpoint flat (ps : list (Z * Z)) : list Z :=
+  match ps with [] => [] | (t, v) :: tl => t :: v :: flat tl end.
+
+Definition ep_multi_swap (w : world) (c tin amt : Z) (hops : list hop)
+  : result (world * list (Z * Z)) :=
+  check r_active (w_r w) else EState;
+  check tok_valid tin else EGuard;
+  check (0 <? amt) else EGuard;
+  check (match hops with [] => false | _ => true end) else EGuard;
+  (* the caller's payment arrives at the router *)
+  do led0 <- debit (w_led w) c tin amt;
+  let w0 := set_led w (credit led0 ROUTER tin amt) in
+  do (w1, last, resid) <- run_hops w0 hops (tin, amt) [];
+  let payments := resid ++ [last] in
+  do led2 <- pay_all (w_led w1) ROUTER c payments;
+  Ok (set_led w1 led2, payments).
+
+(** ------------------------------------------------------------------ environment of the router:
+    pair contracts deployed without the router, direct calls to pair contracts, plain transfers,
+    block progress.  These exist to reach diverse worlds; they are not router endpoints. *)
+Definition ep_deploy_pair (w : world) (a b f sf na : Z) : result (world * outs) :=
+  check fresh_addr w na else EGuard;
+  check pair_init_ok a b f sf else EGuard;
+  Ok (set_pairs w (w_pairs w ++ [(na, mkPent a b false (init_pair f sf None))]), [na]).
+
+(** pair.setLpTokenIdentifier called directly by an account with owner permissions on the pair *)
+Definition ep_set_lp (w : world) (c addr : Z) : result (world * outs) :=
+  match pair_at (w_pairs w) addr with
+  | None => Err EGuard
+  | Some pe =>
+      check has_owner_perm c else EPerm;
+      check negb (pe_lp pe) else EGuard;
+      Ok (set_pairs w (upd_pair (w_pairs w) addr (set_plp pe true)), [])
+  end.
+
+Definition direct_allowed (op : pop) : bool :=
+  match op with
+  | AddInitial _ _ _ | Add _ _ _ _ _ | Remove _ _ _ _ | SwapIn _ _ _ _ _ | SwapOut _ _ _ _ _
+  | SetState _ _ | SetFee _ _ _ | SetFeeOn _ _ _ _ => true
+  | _ => false
+  end.
+Definition needs_lp (op : pop) : bool :=
+  match op with AddInitial _ _ _ | Add _ _ _ _ _ | Remove _ _ _ _ => true | _ => false end.
+
+(** what a direct pair call moves on the ledger: (caller, payments sent, payments received),
+    in the pair's local token codes *)
+Definition moves (op : pop) (o : list Z) : Z * list (Z * Z) * list (Z * Z) :=
+  match op, o with
+  | AddInitial c a1 a2, _ => (c, [(T1, a1); (T2, a2)], [])
+  | Add c a1 a2 _ _, [_; o1; o2] => (c, [(T1, a1); (T2, a2)], [(T1, a1 - o1); (T2, a2 - o2)])
+  | Remove c _ _ _, [x1; x2] => (c, [], [(T1, x1); (T2, x2)])
+  | SwapIn c tin ain tout _, [out] => (c, [(tin, ain)], [(tout, out)])
+  | SwapOut c tin amax tout _, [out; res] => (c, [(tin, amax)], [(tout, out); (tin, res)])
+  | _, _ => (0, [], [])
+  end.
+
+Definition ep_direct (w : world) (addr : Z) (op : pop) : result (world * outs) :=
+  match pair_at (w_pairs w) addr with
+  | None => Err EGuard
+  | Some pe =>
+      check direct_allowed op else EGuard;
+      check negb (needs_lp op) || pe_lp pe else EGuard;
+      do (p', o, e) <- step (pe_p pe) op;
+      check (match e_ext e with [] => true | _ => false end) else EExt;
+      let '(c, debs, creds) := moves op o in
+      let g := map (fun tv => (glob pe (fst tv), snd tv)) in
+      do led1 <- debit_all (w_led w) c (g debs);
+      let led2 := credit_all led1 c (g creds) in
+      Ok (set_led (set_pairs w (upd_pair (w_pairs w) addr (set_pp pe p'))) led2, o)
+  end.
+
+Definition ep_donate_router (w : world) (c tok amt : Z) : result (world * outs) :=
+  check (0 <? amt) else EGuard;
+  do led1 <- debit (w_led w) c tok amt;
+  Ok (set_led w (credit led1 ROUTER tok amt), []).
+
+(** ------------------------------------------------------------------ operations *)
+Inductive rop :=
+| CreatePair (c a b adder : Z) (fees : option (Z * Z)) (na : Z)
+| RemovePair (c a b : Z)
+| UpgradePair (c a b : Z)
+| Pause (c addr : Z)
+| Resume (c addr : Z)
+| RSetFeeOn (c addr dest tok : Z)
+| RSetFeeOff (c addr dest tok : Z)
+| SetLocalRoles (c addr : Z)
+| IssueLp (c addr : Z)
+| SetCreation (c : Z) (en : bool)
+| MultiSwap (c tin amt : Z) (hops : list hop)
+| DeployPair (a b f sf na : Z)
+| SetLp (c addr : Z)
+| Direct (addr : Z) (op : pop)
+| DonateRouter (c tok amt : Z)
+| SetBlock (n : Z).
+
+Definition rstep (w : world) (op : rop) : result (world * outs) :=
+  match op with
+  | CreatePair c a b adder fees na => ep_create_pair w c a b adder fees na
+  | RemovePair c a b => ep_remove_pair w c a b
+  | UpgradePair c a b => ep_upgrade_pair w c a b
+  | Pause c addr => ep_pause w c addr ST_Inactive
+  | Resume c addr => ep_pause w c addr ST_Active
+  | RSetFeeOn c addr dest tok => ep_set_fee w c addr true dest tok
+  | RSetFeeOff c addr dest tok => ep_set_fee w c addr false dest tok
+  | SetLocalRoles c addr => ep_set_local_roles w c addr
+  | IssueLp c addr => ep_issue_lp w c addr
+  | SetCreation c en => ep_set_creation w c en
+  | MultiSwap c tin amt hops =>
+      do (w', ps) <- ep_multi_swap w c tin amt hops; Ok (w', flat ps)
+  | DeployPair a b f sf na => ep_deploy_pair w a b f sf na
+  | SetLp c addr => ep_set_lp w c addr
+  | Direct addr op => ep_direct w addr op
+  | DonateRouter c tok amt => ep_donate_router w c tok amt
+  | SetBlock n => Ok (set_block w n, [])
+  end.
+
+(** A failed transaction reverts (nested synchronous calls included): the runner keeps the old world. *)
+Definition rstep_total (w : world) (op : rop) : world :=
+  match rstep w op with Ok (w', _) => w' | Err _ => w end.
+
+Definition rrun (w : world) (ops : list rop) : world := fold_left rstep_total ops w.
